@@ -194,7 +194,28 @@ def pre_removal(ctx, rule='A14p'):
     ok = 'choice_nodes = self.ordered_choice_nodes(choice_nodes)' in t2
     ctx.ob(rule, fkey(f2, rule, 'choice-order-canonical'), ok, f2.where,
            'the constrained choices are stored in the canonical choice order (the order the relations refer to)', '')
-    ok = 'any([len(opts) != n_opts for opts in node_options])' in t2
+    # a raising test that compares the option counts of the constrained choices: any(len(x) != n ...) or the set of
+    # lengths having more than one element
+    ok = False
+    cfg2 = build_cfg(f2)
+    for t_ in cfg2.nodes:
+        if t_.kind != 'test' or cfg2.exit.id in cfg2.reachable([m for m, lab in t_.succ if lab == 'T'],
+                                                              labels_excluded=('exc',)):
+            continue
+        for c_ in ast.walk(t_.ast):
+            if isinstance(c_, ast.Call) and call_name(c_) == 'any' and c_.args and \
+                    isinstance(c_.args[0], (ast.ListComp, ast.GeneratorExp)) and \
+                    isinstance(c_.args[0].elt, ast.Compare) and isinstance(c_.args[0].elt.ops[0], ast.NotEq) and \
+                    'len(' in norm(c_.args[0].elt.left) + norm(c_.args[0].elt.comparators[0]) and \
+                    'node_options' in norm(c_.args[0].generators[0].iter):
+                ok = True
+            if isinstance(c_, ast.Compare) and isinstance(c_.left, ast.Call) and call_name(c_.left) == 'len' and \
+                    c_.left.args and isinstance(c_.left.args[0], ast.SetComp) and \
+                    'len(' in norm(c_.left.args[0].elt) and 'node_options' in norm(c_.left.args[0].generators[0].iter) \
+                    and ((isinstance(c_.ops[0], ast.Gt) and norm(c_.comparators[0]) == '1') or
+                         (isinstance(c_.ops[0], ast.NotEq) and norm(c_.comparators[0]) == '1') or
+                         (isinstance(c_.ops[0], ast.GtE) and norm(c_.comparators[0]) == '2')):
+                ok = True
     ctx.ob(rule, fkey(f2, rule, 'unordered-equal-option-counts'), ok, f2.where,
            'UNORDERED / UNORDERED_NOREPL require the same number of options for every choice', '')
     ok = "raise RuntimeError(f'Node is already constrained: {node}')" in t2
@@ -202,9 +223,25 @@ def pre_removal(ctx, rule='A14p'):
            'a choice can be part of one constraint only', '')
     f3 = ctx.fn(f'{DSG}._get_removed_constrained_selection_choices')
     t3 = FnText(ctx, f3)
-    ok = 'get_constraint_removed_options(choice_constraint, i_dec, i_opt)' in t3 and \
-        'i_opt = choice_constraint.options[i_dec].index(option_node)' in t3 and \
-        'for i_dec, dec_node in enumerate(choice_constraint.nodes)' in t3
+    # the call receives (constraint, position of the taken choice in constraint.nodes, position of the selected option in
+    # constraint.options[<that position>]) - however the two positions are found (enumerate loop, .index, next(...))
+    ok = False
+    for c_ in calls(f3, 'get_constraint_removed_options'):
+        if len(c_.args) != 3 or not all(isinstance(a_, ast.Name) for a_ in c_.args):
+            continue
+        con, pos, opt = (a_.id for a_ in c_.args)
+        pos_ok = any(isinstance(lp, ast.For) and isinstance(lp.iter, ast.Call) and call_name(lp.iter) == 'enumerate' and
+                     norm(lp.iter.args[0]) == f'{con}.nodes' and isinstance(lp.target, ast.Tuple) and
+                     norm(lp.target.elts[0]) == pos for lp in ast.walk(f3.node))
+        for a_ in walk_fn(f3):
+            if isinstance(a_, ast.Assign) and norm(a_.targets[0]) == pos:
+                v_ = norm(a_.value)
+                if v_.startswith(f'{con}.nodes.index(') or (v_.startswith('next(') and
+                                                           f'enumerate({con}.nodes)' in v_):
+                    pos_ok = True
+        opt_ok = any(isinstance(a_, ast.Assign) and norm(a_.targets[0]) == opt and
+                     norm(a_.value).startswith(f'{con}.options[{pos}].index(') for a_ in walk_fn(f3))
+        ok = pos_ok and opt_ok
     ctx.ob(rule, fkey(f3, rule, 'removal-uses-constraint-positions'), ok, f3.where,
            'the option removal is evaluated with the position of the taken choice in constraint.nodes and the '
            'position of the selected option in constraint.options (the coordinates the relations refer to)', '')
